@@ -27,6 +27,7 @@ type oactor struct {
 	handled []string
 	held    chan struct{}
 	release chan struct{}
+	do      chan func() // work done by the receiver itself while it is parked (sends to itself)
 	// second hold: inside the first HandleLog
 	logHold  bool
 	held2    chan struct{}
@@ -39,7 +40,14 @@ func (o *oactor) HandleMessage(from gen.PID, message any) error {
 	switch m := message.(type) {
 	case holdCmd:
 		close(o.held)
-		<-o.release
+		for parked := true; parked; {
+			select {
+			case f := <-o.do:
+				f()
+			case <-o.release:
+				parked = false
+			}
+		}
 	case Msg:
 		o.mu.Lock()
 		o.handled = append(o.handled, m.ID)
@@ -97,7 +105,7 @@ func clsOf(p gen.MessagePriority) string {
 func (r *Runner) RunOrder(n int, seed int64) error {
 	rng := rand.New(rand.NewSource(seed))
 	for h := 1; h <= n; h++ {
-		o := &oactor{held: make(chan struct{}), release: make(chan struct{}), held2: make(chan struct{}), release2: make(chan struct{})}
+		o := &oactor{do: make(chan func()), held: make(chan struct{}), release: make(chan struct{}), held2: make(chan struct{}), release2: make(chan struct{})}
 		holdLog := h%3 == 0
 		o.logHold = holdLog
 		name := gen.Atom(fmt.Sprintf("ord_%d_%d", seed%100000, h))
@@ -147,6 +155,27 @@ func (r *Runner) RunOrder(n int, seed int64) error {
 				c := rng.Intn(10)
 				if n < forceLogs {
 					c = 9
+				}
+				// the receiver writes to itself (own pid with a priority, own name): one more sender, "R"
+				if phase == 1 && n >= forceLogs && rng.Intn(6) == 0 {
+					op.S = "R"
+					op.ID = fmt.Sprintf("R:%d", k)
+					rid := op.ID
+					done := make(chan struct{})
+					if rng.Intn(3) > 0 {
+						op.API, op.Cls = "selfprio", clsOf(pr)
+						o.do <- func() { res = o.SendWithPriority(rpid, Msg{ID: rid, Kind: "msg"}, pr); close(done) }
+					} else {
+						op.API, op.Cls = "selfname", "main"
+						o.do <- func() { res = o.Send(name, Msg{ID: rid, Kind: "msg"}); close(done) }
+					}
+					<-done
+					op.Ok = res == nil
+					if res != nil {
+						op.Res = res.Error()
+					}
+					ops = append(ops, op)
+					continue
 				}
 				switch {
 				case c < 3:
